@@ -133,7 +133,10 @@ static std::string judgeResume(SoPlex& sp, const Case& c, const Ref& ref, const 
    }
    int cl = statusClass(st);
    std::ostringstream e;
-   if(!classesAgree(cl, ref.cls) || cl == CL_UNKNOWN)
+   // an LP that is primal AND dual infeasible may legitimately be reported INFEASIBLE, UNBOUNDED or INForUNBD (C02 counts all
+   // three); which one the resumed solve reports need not be the one of the uninterrupted solve
+   bool bothInf = c.pl.cls == CL_INFUNB && (cl == CL_INF || cl == CL_UNB || cl == CL_INFUNB);
+   if((!classesAgree(cl, ref.cls) && !bothInf) || cl == CL_UNKNOWN)
    {
       e << kind << ": after lifting the limit the solve ends " << statusName(st) << " but the uninterrupted solve ends " << statusName(ref.status);
       return e.str();
@@ -264,7 +267,8 @@ static Verdict runExact(const Case& c)
          ev().count("excluded_known.exact-iterlimit-error-status.resume");
          return "";
       }
-      if(!classesAgree(statusClass(st), refCls) || statusClass(st) == CL_UNKNOWN)
+      bool bothInf = c.pl.cls == CL_INFUNB && (statusClass(st) == CL_INF || statusClass(st) == CL_UNB || statusClass(st) == CL_INFUNB);
+      if((!classesAgree(statusClass(st), refCls) && !bothInf) || statusClass(st) == CL_UNKNOWN)
          return kind + ": after lifting the limit the exact solve ends " + statusName(st) + " but the uninterrupted one ends " + statusName(refStatus);
       return judgeExact(sp, c, kind + " (resumed)", -12345, -1);
    };
